@@ -7,6 +7,7 @@ parsing), `Compress.XFlate.Reader` (C07), meta codec.
 import Compress.Proofs.XFlateStream
 import Compress.Proofs.XFlateWriterLatch
 import Compress.Proofs.XFlateGlue
+import Compress.Proofs.XWSplit
 
 namespace Compress.Props.C05
 open Compress Compress.XFlate
@@ -66,5 +67,27 @@ theorem C05_roundtrip (crc : List UInt8 → Nat) (level chunk index : Int) (hasC
     TraceOK (dataOf s.zlog) 0 rops (runOps .fixed L (opened .fixed L) rops) ∧
     L.endRaw = ((dataOf s.zlog).length : Int) :=
   Compress.Proofs.XFlateGlue.roundtrip crc level chunk index hasConf oracle ops s0 h0 hz rops
+
+/-- **C05 (split independence).** "For a fixed configuration and flush positions the emitted
+    bytes do not depend on how writes were split."  The compressor is any DETERMINISTIC one:
+    a function `Z : ZFun` giving the bytes emitted since the last Reset from the level, the data
+    written since the Reset and the positions of the flushes since the Reset only
+    (`Compress.XFlate.WriterSplitSpec`; `oracleOf Z … ops` is the oracle of a compressor behaving
+    as `Z` during `ops`, see `C05_oracleOf_behaves`).  For every accepted configuration and any two
+    sequences of Write/Flush(any mode)/Close calls with the same normal form — the same
+    concatenated data, the same (position, mode) of the explicit Flush calls, a Close or not;
+    empty Writes and Write boundaries are not part of it — the fault-free sink receives the same
+    bytes, the writer accumulates the same records and ends in the same error state and
+    `OutputOffset`; the oracle answered exactly the calls the writer made (`bad = false`). -/
+theorem C05_split_independent (Z : ZFun) (crc : List UInt8 → Nat) (level chunk index : Int) (hasConf : Bool)
+    (ops ops' : List WOp) (s0 s0' : XWState)
+    (h0 : newWriter level chunk index hasConf {} (oracleOf Z level chunk hasConf ops) = some s0)
+    (h0' : newWriter level chunk index hasConf {} (oracleOf Z level chunk hasConf ops') = some s0')
+    (hn : norm ops = norm ops') :
+    let s := (runW crc s0 ops).1
+    let s' := (runW crc s0' ops').1
+    s.sink.got = s'.sink.got ∧ s.allRecs = s'.allRecs ∧ s.err = s'.err ∧ s.outOff = s'.outOff ∧
+      s.bad = false ∧ s'.bad = false :=
+  Compress.Proofs.XWSplit.split_independent Z crc level chunk index hasConf ops ops' s0 s0' h0 h0' hn
 
 end Compress.Props.C05
